@@ -3,7 +3,8 @@ The generalised fragment check (C05 / C10 composites): `PlanCheck.checkTy` exten
   * skipped fields (`FieldPlan.skip`: goverter:ignore / ignoreMissing / ignoreUnexported — the field is not assigned),
   * struct nodes of update methods (`structc … isUpdate` with either flag),
   * zero-value guards (`ZeroCheck.check`: update:ignoreZeroValueField),
-  * update methods at the top level (`Body.update srcIsPtr c`).
+  * update methods at the top level (`Body.update srcIsPtr c`),
+  * default constructors at the top level of a conversion method (`withCtor` / `ctorUpdate` around a constructor call).
 `Gv.Sound.checkProgU_sound` turns `true` into the hypotheses of `Gv.Sound.evalConv_onto`.
 -/
 import Gv.Model.Eval
@@ -74,10 +75,55 @@ mutual
     | _, _, _, _ => false
 end
 
+/-- `default FUNC`: the constructor call as `Gen.targetVar` emits it — a call of a custom function that the harness interprets
+as a constructor (`isCtor`), returning the target type (or, with `toPointer`, the non-pointer type the target points to) -/
+def checkCtor (p : Program) (ctor : Conv) (toPointer : Bool) (t : Ty) : Bool :=
+  match ctor with
+  | .call (.custom i) _ _ _ =>
+    (match p.conv.customs[i]? with
+     | some d =>
+       p.sem.isCtor d.name &&
+       (if toPointer then
+          (match under p.conv.env t with
+           | .ptr te => d.target == te && (isPtr p.conv.env d.target).isNone
+           | _ => false)
+        else d.target == t)
+     | none => false)
+  | _ => false
+
+/-- the body of a conversion method: a structural conversion, possibly starting from a default constructor
+(`withCtor`: plain `default`; `ctorUpdate`: with default:update, over the three pointer shapes) -/
+def checkConvertU (p : Program) (c : Conv) (s t : Ty) : Bool :=
+  match c with
+  | .withCtor ctor toPointer rest =>
+    -- the constructor wraps a builder's own code, never a call of another method (`callExisting` returns before)
+    checkCtor p ctor toPointer t && (match rest with | .call _ _ _ _ => false | _ => true) && checkTyU p rest s t
+  | .ctorUpdate ctor toPointer srcIsPtr tgtIsPtr inner =>
+    checkCtor p ctor toPointer t &&
+    (if srcIsPtr then
+       (match under p.conv.env s with
+        | .ptr se =>
+          if tgtIsPtr then
+            (match under p.conv.env t with
+             | .ptr te => checkTyU p inner se te
+             | _ => false)
+          else
+            (match under p.conv.env t with
+             | .ptr _ => false
+             | _ => checkTyU p inner se t)
+        | _ => false)
+     else if tgtIsPtr then
+       (match under p.conv.env s, under p.conv.env t with
+        | .ptr _, _ => false
+        | _, .ptr te => checkTyU p inner s te
+        | _, _ => false)
+     else false)
+  | c => checkTyU p c s t
+
 /-- the struct types an update method converts between: the pointee of the target, and the source or its pointee -/
 def checkBodyU (p : Program) (gm : GenMethod) : Bool :=
   match gm.body with
-  | some (.convert c) => checkTyU p c gm.source gm.target
+  | some (.convert c) => checkConvertU p c gm.source gm.target
   | some (.update srcIsPtr c) =>
     (match under p.conv.env gm.target with
      | .ptr te =>
